@@ -18,9 +18,10 @@ RULE = ('Exhaustive: the hierarchy literal and the printed tree() against the RE
         'each); children/nodes/leaves for all 37; is_child for all 37x37 ordered pairs; valid() for ALL include/exclude '
         'pairs of subsets of size <=2 (704 x 704 = 495,616), match() for all 37 categories on every pair in the '
         'thorough tier and on a seed-dependent 1/16 of the pairs in the quick tier; None arguments; invalid members. '
-        'Random: Hypothesis-generated larger sets (size 0..10) in the four argument shapes set/list/tuple/bare member, '
+        'Random: Hypothesis-generated larger sets (size 0..10, in a quarter of the draws 11..37, and the sets "all top-level categories", "all but one", "all non-top-level") in the four argument shapes set/list/tuple/bare member, '
         'through TokenCategory, TokenCategoryHierarchyMapper and the export-option entry point '
-        '(Generic.parse_options_to_ExportOptions).  A case is one include set paired with every '
+        '(Generic.parse_options_to_ExportOptions); and histories in which ONE include and ONE exclude collection owned by the caller are '
+        'handed to valid/match/export options again and again and edited in place (add, remove, clear) between the calls.  A case is one include set paired with every '
         'exclude set (exhaustive part) or one (include, exclude, shape) triple (random part); an (include, exclude) pair '
         'is non-trivial when the selection is neither empty nor everything and the exclusion actually removes '
         'something from the inclusion closure; distinct_nontrivial counts such pairs.')
@@ -183,9 +184,12 @@ def shape(ns, how):
     return cs[0] if len(cs) == 1 else set(cs)
 
 
+_sets = st.one_of(st.none(), st.lists(st.sampled_from(NAMES), max_size=10, unique=True),
+                  st.lists(st.sampled_from(NAMES), max_size=10, unique=True),
+                  st.lists(st.sampled_from(NAMES), min_size=11, max_size=37, unique=True),  # up to all 37
+                  st.sampled_from([list(cats.TOP), list(cats.TOP)[:-1], [n for n in NAMES if n not in cats.TOP]]))
 big_sets = st.tuples(
-    st.one_of(st.none(), st.lists(st.sampled_from(NAMES), max_size=10, unique=True)),
-    st.one_of(st.none(), st.lists(st.sampled_from(NAMES), max_size=10, unique=True)),
+    _sets, _sets,
     st.sampled_from(SHAPES), st.sampled_from(SHAPES), st.sampled_from(NAMES), st.booleans(),
 ).map(lambda t: {'include': t[0], 'exclude': t[1], 'ishape': t[2], 'xshape': t[3], 'probe': t[4], 'mapper': t[5]})
 
@@ -218,6 +222,47 @@ def check_random(case):
                   key=[I, X], sample=case)
 
 
+edit_steps = st.lists(st.tuples(st.sampled_from(['include', 'exclude']), st.sampled_from(['add', 'remove', 'clear', 'same']),
+                                st.sampled_from(NAMES)), min_size=3, max_size=10)
+edit_cases = st.tuples(st.lists(st.sampled_from(NAMES), max_size=4, unique=True), st.lists(st.sampled_from(NAMES), max_size=3, unique=True),
+                       st.sampled_from(['list', 'set']), edit_steps, st.booleans()
+                       ).map(lambda t: {'include': t[0], 'exclude': t[1], 'kind': t[2], 'edits': t[3], 'mapper': t[4]})
+
+
+def check_edited(case):
+    """ONE include collection and ONE exclude collection, owned by the caller, handed to valid / match again and again and
+    edited in place between the calls: every answer is the selection of what the collections hold at that moment"""
+    mk = list if case['kind'] == 'list' else set
+    incl, excl = mk(cat(n) for n in case['include']), mk(cat(n) for n in case['exclude'])
+    api = HM if case['mapper'] else TC
+    I, X = list(case['include']), list(case['exclude'])
+    nt = False
+    for step, (which, what, n) in enumerate([('include', 'same', NAMES[0])] + [tuple(e) for e in case['edits']]):
+        coll, model = (incl, I) if which == 'include' else (excl, X)
+        if what == 'add' and n not in model:
+            model.append(n)
+            coll.append(cat(n)) if isinstance(coll, list) else coll.add(cat(n))
+        elif what == 'remove' and n in model:
+            model.remove(n)
+            coll.remove(cat(n))
+        elif what == 'clear':
+            del model[:]
+            coll.clear()
+        exp = cats.selected(I, X)
+        got = api.valid(include=incl, exclude=excl)
+        if {c.name for c in got} != exp:
+            raise Bad('valid-after-in-place-edit', f'step {step}: the caller\'s collections now hold include={I} exclude={X}; valid() = {names(got)}, tree says {sorted(exp)}')
+        for pn in (n,) + tuple(NAMES[step % 5::9]):
+            m = api.match(cat(pn), include=incl, exclude=excl)
+            if m != bool(cats.DESC_STAR[pn] & exp):
+                raise Bad('match-after-in-place-edit', f'step {step}: include={I} exclude={X}: match({pn}) = {m}')
+        sel = kp.core.generic.Generic.parse_options_to_ExportOptions(include=incl, exclude=excl).token_categories
+        if {c.name for c in sel} != exp:
+            raise Bad('export-options-after-in-place-edit', f'step {step}: include={I} exclude={X}: export options select {names(sel)}')
+        nt = nt or (what in ('add', 'remove') and 0 < len(exp) < 37)
+    return Result(nontrivial=nt, classes=['in-place-edits', 'kind=' + case['kind']], evals=3 * (len(case['edits']) + 1), key=['edit', case], sample=case)
+
+
 def run(ctx):
     if ctx.shard == 0:
         ctx.check_all([{'structure': True}], check_structure)
@@ -231,6 +276,7 @@ def run(ctx):
         cases.append({'include': None if I is None else list(I), 'match': do_match})
     ctx.check_all(cases, check_include)
     ctx.run_hypothesis(big_sets, check_random, max_examples=(3000 if ctx.quick else 64000) // ctx.nshards, label='random-sets')
+    ctx.run_hypothesis(edit_cases, check_edited, max_examples=(400 if ctx.quick else 8000) // ctx.nshards, salt=3, label='collections-edited-in-place')
     ctx.rec.exhaustive = True
     ctx.rec.notes['exhaustive_part'] = ('structure; valid() on all 705x705 (None + subsets of size <=2); match() x37 on '
                                         + ('all pairs' if not ctx.quick else '1/16 of the include sets'))
@@ -239,6 +285,8 @@ def run(ctx):
 def replay(case):
     if 'structure' in case:
         return check_structure(case)
+    if 'edits' in case:
+        return check_edited(case)
     if 'ishape' in case:
         return check_random(case)
     c = dict(case)
